@@ -42,7 +42,7 @@ def BOUNDS(tier):
 
 FAMILIES = [("hexahedron", "3d"), ("quad", "ps"), ("tetra", "3d"), ("quad8", "ps"), ("quad", "axi"), ("triangle6", "ps")]
 E2_MATERIALS = ["LinearElastic", "NeoHooke", "NeoHookeCompressible", "mixed-ThreeField", "NearlyIncompressibleBody", "OgdenRoxburgh", "plasticity", "tt-visco"]
-EXTRA = ["none", "pressure", "pointload"]
+EXTRA = ["none", "pressure", "pointload", "item-x0", "item-x0.5"]  # item-x<m>: a second, stiff solid body on the same field scaled by the item multiplier m (0: switched off)
 
 
 def plan(tier, seed):
@@ -259,6 +259,8 @@ def build_problem(case):
             rb, fb = boundary_field(mk, mesh, fk, fld, top)
             fb.fields[0].values = fld.fields[0].values
             its["pressure"] = fem.SolidBodyPressure(fb, pressure=0.05)
+        elif extra.startswith("item-x"):
+            its["scaled"] = fem.SolidBody(fem.NeoHooke(mu=4.0, bulk=9.0) if mat != "LinearElastic" else fem.LinearElastic(E=9.0, nu=0.2), fld, multiplier=float(extra[6:]))
         elif extra == "pointload":
             pid = int(np.where(np.isclose(P[:, 0], P[:, 0].max()))[0][0])
             vals = np.zeros(mesh.dim)
@@ -320,7 +322,7 @@ def run_problem(case):
                 scale = np.maximum(np.abs(ext0), np.abs(x_before[dof0]))
                 if np.abs(xv[dof0] - ext0).max() > 4 * np.finfo(float).eps * max(scale.max(), 1.0):
                     c.bad(sub + "/constraints", "prescribed values not met exactly", float(np.abs(xv[dof0] - ext0).max()), 0)
-                if case["mat"] == "LinearElastic" and case["extra"] in ("none", "pointload") and res.iterations != 1:
+                if case["mat"] == "LinearElastic" and case["extra"] in ("none", "pointload", "item-x0", "item-x0.5") and res.iterations != 1:
                     c.bad(sub + "/linear", "a linear problem must converge with the first update", res.iterations, 1)
                 # independent residual: fresh items on a copy of the returned field, pre-step committed state
                 xf = res.x.copy()
@@ -342,6 +344,19 @@ def run_problem(case):
                         trial = fresh[k].results._statevars
                         if trial is not None and np.abs(np.asarray(it.results.statevars) - np.asarray(trial)).max() > 1e-9 * max(1.0, np.abs(trial).max()):
                             c.bad(sub + "/commit", "committed history variables differ from the update at the converged state", float(np.abs(np.asarray(it.results.statevars) - np.asarray(trial)).max()), 0, 1e-9)
+                if case["extra"] == "item-x0":
+                    # a switched-off item changes nothing: the same solve without it, from the same start, gives the same field
+                    f2 = field.copy()
+                    for fl, v0 in zip(f2.fields, np.split(x_before, np.cumsum([fl.values.size for fl in f.fields])[:-1])):
+                        fl.values = v0.reshape(fl.values.shape).copy()
+                    it2 = {k: v for k, v in mk_items(f2, committed_before).items() if k != "scaled"}
+                    try:
+                        r2 = fem.newtonrhapson(items=list(it2.values()), dof0=dof0, dof1=dof1, ext0=ext0, maxiter=maxiter, verbose=False)
+                        x2 = np.concatenate([fl.values.ravel() for fl in r2.x.fields])
+                        if np.abs(x2 - xv).max() > 1e-9 * max(np.abs(xv).max(), 1e-3):
+                            c.bad(sub + "/switched-off-item", "solution with an item of multiplier 0 differs from the solution without that item", float(np.abs(x2 - xv).max()), 0, 1e-9)
+                    except ValueError:
+                        c.bad(sub + "/switched-off-item", "the solve without the switched-off item raised", "raise", "same result")
                 x = res.x
     return c.result(dict(case=case["key"], sequences=len(sequences), unknowns=int(sum(field.fieldsizes))))
 
